@@ -150,6 +150,28 @@ func (s *Sim) Host(name string) *Host {
 	return h
 }
 
+// HostLike returns (creating it if necessary) a host that shares the IP address of host `like`
+// but listens on another port: same hostname, different url.Host.
+func (s *Sim) HostLike(name string, like string) *Host {
+	base := s.Host(like)
+	s.mu.Lock()
+	defer s.mu.Unlock()
+	if h, ok := s.hosts[name]; ok {
+		return h
+	}
+	ip, _, _ := net.SplitHostPort(base.Addr)
+	ln, err := net.Listen("tcp", ip+":0")
+	if err != nil {
+		panic(err)
+	}
+	h := &Host{Name: name, Addr: ln.Addr().String(), sim: s, ln: ln, routes: map[string]*Route{}}
+	h.Fallback = base.Fallback
+	s.hosts[name] = h
+	s.byAddr[h.Addr] = h
+	go h.serve()
+	return h
+}
+
 // Reset forgets all routes and the connection log but keeps hosts (and their ports).
 func (s *Sim) Reset() {
 	s.mu.Lock()
